@@ -42,6 +42,8 @@ struct Run {
   char outsideMsg[160];
   bool failFast = false; // C12: report an out-of-range chunk at once (the run may never finish)
   char keyPrefix[48];
+  char inputCell = 0;    // C10: written by the caller before the loop, read by every body
+  const char* stateLabel = "parfor-state";
 };
 
 template <typename T>
@@ -69,6 +71,7 @@ static void record(Run& r, T start, T end, T b, T e, uint32_t gran) {
     return;
   }
   for (uint64_t i = ob; i < oe; ++i) {
+    raceW(&r.cover[(size_t)i], "parfor-output");
     if (r.cover[(size_t)i]++)
       r.overlap = true;
   }
@@ -123,6 +126,7 @@ static void invoke(dispenso::TaskSet& ts, const Cfg& c, T start, T end, Run& r, 
     if (r.inflight > r.maxInflight)
       r.maxInflight = r.inflight;
     sim_event(3, (int64_t)b, (int64_t)e);
+    raceR(&r.inputCell, "parfor-input");
     sim_work(work);
     record<T>(r, start, end, b, e, gran);
     sim_work(1);
@@ -144,6 +148,7 @@ static void invoke(dispenso::TaskSet& ts, const Cfg& c, T start, T end, Run& r, 
         r.stateClash = true;
       if (s.inUse++)
         r.stateClash = true;
+      raceW(&s, r.stateLabel);
       s.uses++;
       bodyCommon(b, e);
       s.inUse--;
@@ -233,6 +238,31 @@ static void runTyped(const Cfg& c, int focus) {
   sim_note("nest", c.nest);
   sim_note("stateful", c.stateful * 4 + c.container);
 
+  char key[200];
+  const char* chunkName = c.chunking == 0 ? "static" : (c.chunking == 1 ? "adaptive" : "explicit");
+  // Small adaptive loops are demoted to the static path by the library (adjustChunkSizing); label
+  // them as what they execute as, so one defect of the static path has one key.
+  if (c.chunking == 1) {
+    uint64_t parSize = c.gran > 1 ? n - n % c.gran : n;
+    uint64_t N = (uint64_t)c.poolThreads;
+    uint64_t mt = std::min<uint64_t>(std::max<uint32_t>(c.maxThreads == 0xffffffffu ? 0x7fffffffu : c.maxThreads, 1), N + 1);
+    bool demoted = false;
+    if (c.minItems > 1) {
+      uint64_t maxWorkers = parSize / c.minItems;
+      if (maxWorkers < mt)
+        mt = maxWorkers;
+      demoted = mt > 0 && parSize / (mt + (c.wait ? 1 : 0)) < c.minItems;
+    } else {
+      demoted = parSize <= N + (c.wait ? 1 : 0);
+    }
+    if (demoted)
+      chunkName = "static";
+  }
+  // static chunking, wait=false, granularity tail: the tail shares the first state object with chunk 0.
+  // That is C14's recorded finding; it gets its own label so that any other state race stays distinct.
+  if (!strcmp(chunkName, "static") && !c.wait && c.gran > 1 && n % c.gran)
+    r.stateLabel = "parfor-state(static,wait=false,tail)";
+  raceW(&r.inputCell, "parfor-input");
   dispenso::ThreadPool pool((size_t)c.poolThreads);
   auto core = [&]() {
     dispenso::TaskSet ts(pool);
@@ -265,27 +295,9 @@ static void runTyped(const Cfg& c, int focus) {
     });
   }
 
-  char key[200];
-  const char* chunkName = c.chunking == 0 ? "static" : (c.chunking == 1 ? "adaptive" : "explicit");
-  // Small adaptive loops are demoted to the static path by the library (adjustChunkSizing); label
-  // them as what they execute as, so one defect of the static path has one key.
-  if (c.chunking == 1) {
-    uint64_t parSize = c.gran > 1 ? n - n % c.gran : n;
-    uint64_t N = (uint64_t)c.poolThreads;
-    uint64_t mt = std::min<uint64_t>(std::max<uint32_t>(c.maxThreads == 0xffffffffu ? 0x7fffffffu : c.maxThreads, 1), N + 1);
-    bool demoted = false;
-    if (c.minItems > 1) {
-      uint64_t maxWorkers = parSize / c.minItems;
-      if (maxWorkers < mt)
-        mt = maxWorkers;
-      demoted = mt > 0 && parSize / (mt + (c.wait ? 1 : 0)) < c.minItems;
-    } else {
-      demoted = parSize <= N + (c.wait ? 1 : 0);
-    }
-    if (demoted)
-      chunkName = "static";
-  }
   bool touches = (uint64_t)((U)L::max() - (U)end) == 0;
+  for (uint64_t i = 0; i < n; ++i)
+    raceR(&r.cover[(size_t)i], "parfor-output");
   if (focus == F_COVER) {
     if (r.outside) {
       snprintf(key, sizeof key, "%s:%s:outside:%s", typeName(c.typeIdx), chunkName, touches ? "touches-max" : "interior");
@@ -438,8 +450,10 @@ static void forEachRun(int focus, const char* catName) {
   sim_note("maxt", maxThreads == 0xffffffffu ? -1 : (int64_t)maxThreads);
   sim_note("wait", wait);
   Cont c;
-  for (int i = 0; i < n; ++i)
+  for (int i = 0; i < n; ++i) {
     c.push_front(Elem());
+    raceW(&*c.begin(), "foreach-element");
+  }
   int extra = range(0, 3); // elements beyond n that must stay untouched (for_each_n)
   FeRun r;
   dispenso::ThreadPool pool((size_t)poolThreads);
@@ -454,6 +468,7 @@ static void forEachRun(int focus, const char* catName) {
       if (r.inflight > r.maxInflight)
         r.maxInflight = r.inflight;
       sim_work(1);
+      raceW(&e, "foreach-element");
       e.count++;
       r.inflight--;
     };
@@ -479,6 +494,7 @@ static void forEachRun(int focus, const char* catName) {
     }
     int idx = 0;
     for (auto& e : c) {
+      raceR(&e, "foreach-element");
       int want = idx < extra ? 0 : 1;
       if (e.count != want) {
         snprintf(key, sizeof key, "for_each:%s:pool%s:wait%d:%s", catName, poolThreads ? "N" : "0", wait,
